@@ -61,18 +61,18 @@ func (c *countingEffect) Exec() error { c.n++; return nil }
 
 // cbWorld is one breaker under simulation together with everything observed.
 type cbWorld struct {
-	r         *simkit.Run
-	cfg       cbConfig
-	sim       *simrt.Sim
-	cb        *cbreaker.CircuitBreaker
-	start     time.Time
-	reqs      []*cbReq
-	stepTime  []time.Duration // simulated time (since start) of every scheduler step, indexed by seq
-	obs       []string        // observed breaker state after every step, indexed by seq
-	onTripped *countingEffect
-	onStandby *countingEffect
-	inHandler int
-	maxInHand int
+	r                *simkit.Run
+	cfg              cbConfig
+	sim              *simrt.Sim
+	cb               *cbreaker.CircuitBreaker
+	start            time.Time
+	reqs             []*cbReq
+	stepTime         []time.Duration // simulated time (since start) of every scheduler step, indexed by seq
+	obs              []string        // observed breaker state after every step, indexed by seq
+	onTripped        *countingEffect
+	onStandby        *countingEffect
+	inHandler        int
+	maxInHand        int
 	tripWithInFlight int
 }
 
@@ -254,10 +254,10 @@ func (w *cbWorld) drawAdvance(rt *rapid.T) time.Duration {
 // events in the order of their critical sections.
 
 type cbEvent struct {
-	seq   uint64
-	t     time.Duration
-	kind  string // "trip" (observed) or "decision"
-	req   *cbReq
+	seq  uint64
+	t    time.Duration
+	kind string // "trip" (observed) or "decision"
+	req  *cbReq
 }
 
 type violation struct {
